@@ -4,7 +4,7 @@ pub mod scope;
 
 use std::{collections::HashSet, sync::Arc};
 
-use context::IndexCtx;
+use context::{IndexCtx, LetBinding};
 use ecow::EcoString;
 use scope::ScopeKind;
 use syntax::{
@@ -342,8 +342,13 @@ impl Indexable for ast::If {
 impl Indexable for ast::Let {
     type Output = ();
     fn index(&self, ctx: &mut IndexCtx) -> Option<Self::Output> {
+        // the bindings stay in force for the defs of the body, and only for them
+        let outer_bindings = ctx.let_bindings.len();
         self.let_list()?.index(ctx);
-        let statement_list = self.statement_list()?;
+        let Some(statement_list) = self.statement_list() else {
+            ctx.let_bindings.truncate(outer_bindings);
+            return None;
+        };
         // a group let (`let ... in { ... }`) is a scope of its own for local variables
         let is_group = statement_list
             .syntax()
@@ -356,6 +361,7 @@ impl Indexable for ast::Let {
         if is_group {
             ctx.scopes.pop();
         }
+        ctx.let_bindings.truncate(outer_bindings);
         None
     }
 }
@@ -373,8 +379,50 @@ impl Indexable for ast::LetList {
 impl Indexable for ast::LetItem {
     type Output = ();
     fn index(&self, ctx: &mut IndexCtx) -> Option<Self::Output> {
-        self.value()?.index(ctx);
+        let value = self.value()?;
+        let value_typ = value.index(ctx);
+        let (name, name_loc) = utils::identifier(&self.name()?, ctx)?;
+        ctx.let_bindings.push(LetBinding {
+            name,
+            name_loc,
+            value_range: value.syntax().text_range(),
+            // a binding of some bits of a field says nothing about the field's whole type
+            value_typ: value_typ.filter(|_| self.range_list().is_none()),
+            applied: false,
+        });
         None
+    }
+}
+
+/// Applies the bindings of the enclosing `let ... in` statements to a record whose parents have
+/// just been indexed: the first record that has the field links the name to it and checks the
+/// value against the field's type.
+fn apply_let_bindings(ctx: &mut IndexCtx, record_id: RecordId) {
+    for i in 0..ctx.let_bindings.len() {
+        if ctx.let_bindings[i].applied {
+            continue;
+        }
+        let record = ctx.symbol_map.record(record_id);
+        let Some(field_id) = record.find_field(&ctx.symbol_map, &ctx.let_bindings[i].name) else {
+            continue;
+        };
+        let field = ctx.symbol_map.record_field(field_id);
+        let (field_name, field_typ) = (field.name.clone(), field.typ.clone());
+        let binding = &mut ctx.let_bindings[i];
+        binding.applied = true;
+        let (name_loc, value_range, value_typ) =
+            (binding.name_loc, binding.value_range, binding.value_typ.clone());
+        ctx.symbol_map.add_reference(field_id, name_loc);
+        if let Some(value_typ) = value_typ {
+            if !value_typ.can_be_casted_to(&ctx.symbol_map, &field_typ) {
+                ctx.error(
+                    value_range,
+                    format!(
+                        "field '{field_name}' of type '{field_typ}' is incompatible with type '{value_typ}'",
+                    ),
+                );
+            }
+        }
     }
 }
 
@@ -452,6 +500,10 @@ impl Indexable for ast::RecordBody {
     type Output = ();
     fn index(&self, ctx: &mut IndexCtx) -> Option<Self::Output> {
         self.parent_class_list()?.index(ctx);
+        // as in llvm-tblgen, enclosing lets take effect once the parents are known, before the body
+        if let Some(record_id) = ctx.scopes.current_record_id() {
+            apply_let_bindings(ctx, record_id);
+        }
         self.body()?.index(ctx);
         None
     }
